@@ -127,6 +127,71 @@ def canon(e):
     return norm(canon_loops(strip_epochs(e)))
 
 
+# --------------------------------------------------------------------------- positional resolution
+_SEQ_WRAP = {("g", "list"), ("g", "tuple"), ("g", "iter"), ("g", "enumerate")}
+
+
+def posroot(d):
+    """positional root of a sequence expression: sequences with the same root have the same length and aligned positions
+    (a comprehension without filter over D, enumerate(D), list(D), zip(D, ...), range(len(D)) all walk the positions of D)"""
+    while isinstance(d, tuple) and d:
+        if d[0] == "comp" and d[1] in ("list", "gen") and len(d[3]) == 1 and not d[3][0][3]:
+            d = d[3][0][2]
+        elif d[0] == "call" and d[1] in _SEQ_WRAP and len(d[2]) >= 1:
+            d = d[2][0]
+        elif d[0] == "call" and d[1] == ("g", "zip") and d[2]:
+            d = d[2][0]
+        elif d[0] == "call" and d[1] == ("g", "range") and len(d[2]) == 1 and d[2][0][0] == "call" and d[2][0][1] == ("g", "len") \
+                and len(d[2][0][2]) == 1:
+            d = d[2][0][2][0]
+        else:
+            break
+    return strip_epochs(d)
+
+
+def elem_at(d, lid):
+    """the element of sequence d at the position of loop `lid`, with comprehensions applied to that position"""
+    if d[0] == "comp" and d[1] in ("list", "gen") and len(d[3]) == 1 and not d[3][0][3]:
+        inner = d[3][0][1]
+
+        def sub(n):
+            if n[0] == "it" and n[1] == inner:
+                return elem_at(n[2], lid)
+            if n[0] == "ix" and n[1] == inner:
+                return ("ix", lid, posroot(n[2]))
+            return None
+        return mapx(d[2], sub)
+    if d[0] == "call" and d[1] == ("g", "enumerate") and len(d[2]) == 1:
+        return ("tup", (("ix", lid, posroot(d[2][0])), elem_at(d[2][0], lid)))
+    if d[0] == "call" and d[1] == ("g", "zip") and d[2]:
+        return ("tup", tuple(elem_at(x, lid) for x in d[2]))
+    if d[0] == "call" and d[1] in (("g", "list"), ("g", "tuple"), ("g", "iter")) and len(d[2]) == 1:
+        return elem_at(d[2][0], lid)
+    if d[0] == "call" and d[1] == ("g", "range") and len(d[2]) == 1:
+        return ("ix", lid, posroot(d))
+    return ("it", lid, d)
+
+
+def rowform(e):
+    """resolve positional indexing: the element a loop variable / an index into a comprehension stands for is written in terms
+    of the underlying sequence (bins[i] with bins = [f(h) for h in hs] and i the position of the same walk -> f(hs[i])).
+    Only unmutated containers (read epoch 0) are resolved."""
+    def f(n):
+        if n[0] == "it":
+            r = elem_at(n[2], n[1])
+            return None if r == n else rowform(r) if r[0] != "it" else r
+        if n[0] == "ix":
+            return ("ix", n[1], posroot(n[2]))
+        if n[0] == "sub" and len(n) == 4 and n[3] == 0 and n[2][0] == "ix" and n[1][0] in ("comp", "call"):
+            if posroot(n[1]) == n[2][2]:
+                r = elem_at(n[1], n[2][1])
+                return rowform(r) if r[0] != "it" else r
+        if n[0] == "sub" and n[1][0] == "tup" and is_const(n[2]) and isinstance(n[2][1], int) and 0 <= n[2][1] < len(n[1][1]):
+            return n[1][1][n[2][1]]
+        return None
+    return mapx(e, f)
+
+
 def walk_ordered(e) -> Iterator[tuple]:
     if isinstance(e, tuple):
         if e and isinstance(e[0], str):
